@@ -49,6 +49,9 @@ Record table := mkTable {
   t_rules    : list (list string * list (string * bool));
   t_aliases  : list alias;
   t_derive   : string * string;       (* (use_mpi, ranks): if F is None: F = bool(G - 1) *)
+  (* where that block stands: None = right after the mode default (before the mode
+     checks), Some n = after the mode checks and the first n alias blocks *)
+  t_derive_pos : option nat;
   t_ignored  : list string }.
 
 Inductive perr := KeyError | TypeError | ValueError | AttributeError | OutOfModel | OtherError.
